@@ -85,33 +85,33 @@ func GenValid(rt *rapid.T, pluginTypes []string) *Model {
 		m.Strategy = sp(pick(rt, "strategy", DocStrategies...))
 	}
 	m.Pool.Mode = mode(rt, "pool", 30, 15, 10, 45)
-	m.Pool.MaxIdle = pick(rt, "max_idle", 0, 1, 10, 100)
-	m.Pool.MaxActive = pick(rt, "max_active", 0, 10, 100, 1000)
+	m.Pool.MaxIdle = pick(rt, "max_idle", 0, 1, 10, 100, 250, 5000)
+	m.Pool.MaxActive = pick(rt, "max_active", 0, 0, 10, 100, 1000, 100000)
 	if m.Pool.MaxActive > 0 && m.Pool.MaxIdle > m.Pool.MaxActive {
 		m.Pool.MaxIdle = m.Pool.MaxActive // boundary: equal is allowed
 	}
-	m.Pool.IdleSec = pick(rt, "idle_timeout", 0, 1, 300)
+	m.Pool.IdleSec = pick(rt, "idle_timeout", 0, 1, 300, 86400)
 
 	m.Active.Mode = mode(rt, "active", 30, 15, 10, 45)
-	m.Active.Interval = pick(rt, "interval", 2, 5, 10, 30)
+	m.Active.Interval = pick(rt, "interval", 2, 5, 10, 30, 3600)
 	m.Active.Timeout = pick(rt, "timeout", 1, m.Active.Interval-1, max(1, m.Active.Interval/2))
 	m.Active.Path = pick(rt, "path", "/", "/health", "/healthz")
 	m.Passive.Mode = mode(rt, "passive", 30, 15, 10, 45)
-	m.Passive.Threshold = pick(rt, "threshold", 1, 3, 10)
-	m.Passive.Timeout = pick(rt, "unhealthy_timeout", 1, 30, 300)
+	m.Passive.Threshold = pick(rt, "threshold", 1, 3, 10, 1000)
+	m.Passive.Timeout = pick(rt, "unhealthy_timeout", 1, 30, 300, 86400)
 
 	m.Rate.Mode = mode(rt, "rate", 35, 15, 10, 40)
-	m.Rate.MaxTokens = pick(rt, "max_tokens", 1, 100, 10000)
-	m.Rate.Refill = pick(rt, "refill", 1, 5, 60)
+	m.Rate.MaxTokens = pick(rt, "max_tokens", 1, 100, 10000, 1000000)
+	m.Rate.Refill = pick(rt, "refill", 1, 5, 60, 3600)
 
 	m.Breaker.Mode = mode(rt, "breaker", 35, 15, 10, 40)
-	if mr := pick(rt, "max_requests", 0, 1, 5); mr > 0 {
+	if mr := pick(rt, "max_requests", 0, 1, 5, 1000); mr > 0 {
 		m.Breaker.MaxRequests = ip(mr)
 	}
-	m.Breaker.Interval = pick(rt, "cb_interval", 1, 30, 60)
-	m.Breaker.Timeout = pick(rt, "cb_timeout", 1, 60)
-	m.Breaker.Failure = pick(rt, "failure", 1, 5, 50)
-	m.Breaker.Success = pick(rt, "success", 1, 2, 5)
+	m.Breaker.Interval = pick(rt, "cb_interval", 1, 30, 60, 86400)
+	m.Breaker.Timeout = pick(rt, "cb_timeout", 1, 60, 3600)
+	m.Breaker.Failure = pick(rt, "failure", 1, 5, 50, 100000)
+	m.Breaker.Success = pick(rt, "success", 1, 2, 5, 100)
 	if m.Breaker.MaxRequests != nil && *m.Breaker.MaxRequests < m.Breaker.Success {
 		m.Breaker.MaxRequests = ip(m.Breaker.Success) // boundary: equal is allowed
 	}
